@@ -5,6 +5,7 @@ import (
 	"math"
 	"sync"
 
+	"github.com/golang/snappy"
 	"github.com/hydraide/hydraide/app/core/compressor"
 )
 
@@ -146,6 +147,14 @@ type Block struct {
 func ParseBlock(header *BlockHeader, compressedData []byte) (*Block, error) {
 	// Validate checksum
 	if !ValidateChecksum(compressedData, header.Checksum) {
+		return nil, ErrCorruptedBlock
+	}
+
+	// snappy.Decode allocates the length declared in the block's varint prefix before it
+	// decodes anything. A snappy element of 3 bytes emits at most 64 bytes, so a declared
+	// length beyond 32x the compressed size (+64) cannot be genuine: refuse it instead of
+	// letting a small forged block request up to 4 GiB.
+	if dLen, derr := snappy.DecodedLen(compressedData); derr == nil && dLen > 32*len(compressedData)+64 {
 		return nil, ErrCorruptedBlock
 	}
 
